@@ -207,6 +207,7 @@ def run_stream(ts, op):
     cons = op.get("consumer") or {"k": "drain"}
     if cons.get("k") == "zip":
         return run_stream_zip(ts, op)
+    drop = bool(ts.run.cfg.get("drop"))  # the consumer keeps no envelope object (only the checker's copies exist)
     budget = cons.get("n") if cons["k"] == "take" else None
     it = iter(SourceEvents(paths).enum())
     d_op = len(ctx.draws)
@@ -246,8 +247,10 @@ def run_stream(ts, op):
                     ev = next(g)
                 except StopIteration:
                     break
-                s["live"].append(ev)
+                if not drop:
+                    s["live"].append(ev)
                 s["snap"].append(copy.deepcopy(ev))
+                del ev
                 taken += 1
                 if k is not None:
                     k.yield_point("env")
@@ -266,7 +269,7 @@ def run_stream(ts, op):
         pos = engine._pos(ctx.draws[s["d0"]:s.get("d1", len(ctx.draws))])
         s["norm"] = [norm_env(e, pos) for e in s["snap"]]
         norm.append([s["path"], s["status"], s.get("error"), s["norm"]])
-    return {"op": "stream", "kind": "stream", "sources": sources, "raw": [s["live"] for s in sources], "snap": [s["snap"] for s in sources],
+    return {"op": "stream", "kind": "stream", "sources": sources, "raw": None if drop else [s["live"] for s in sources], "snap": [s["snap"] for s in sources],
             "norm": norm, "draws": draws, "reads": 0, "toks": 0, "dirty": [], "abandoned": stop}
 
 
